@@ -262,4 +262,73 @@ example : create (prog 1000 (-8) 5000) = [⟨1000, -8, 4999⟩] := create_progre
 example : create (prog 7 0 3 ++ [8]) = [⟨7, 0, 2⟩, ⟨8, 0, 0⟩] := by
   rw [create_progression_snoc 7 0 1 8]; decide
 
+/-! ## Structural invariant of the index and the compression bound (for every list) -/
+
+/-- **Invariant**: every run but the newest holds at least two values (`repeat ≥ 1`) — a single value always absorbs
+the next one, so singleton items can only be last. -/
+def FullButLast (items : List Item) : Prop := ∀ it ∈ items.dropLast, 1 ≤ it.rep
+
+/-- the invariant is preserved by `RLE.add` (one step) -/
+theorem rleAdd_fullButLast (items : List Item) (v : Int) (h : FullButLast items) : FullButLast (rleAdd items v) := by
+  unfold FullButLast at *
+  fun_induction rleAdd items v with
+  | case1 v => simp [Item.new]
+  | case2 lastItem v it' hadd => simp
+  | case3 lastItem v hadd =>
+    intro it hit
+    simp at hit
+    subst hit
+    unfold Item.add at hadd
+    by_cases h0 : it.rep = 0
+    · simp [h0] at hadd
+    · omega
+  | case4 it rest v hne ih =>
+    intro x hx
+    have hr : rleAdd rest v ≠ [] := by
+      cases rest with
+      | nil => simp at hne
+      | cons a r => 
+        cases r with
+        | nil => simp only [rleAdd]; split <;> simp
+        | cons b r' => simp [rleAdd]
+    rw [List.dropLast_cons_of_ne_nil hr] at hx
+    have hrest : rest ≠ [] := by intro e; subst e; simp at hne
+    rw [List.dropLast_cons_of_ne_nil hrest] at h
+    rcases List.mem_cons.1 hx with hx | hx
+    · subst hx; exact h _ (List.mem_cons_self ..)
+    · exact ih (fun y hy => h y (List.mem_cons_of_mem _ hy)) x hx
+
+
+/-- … hence holds for every index `create_rle` builds (induction over the values added). -/
+theorem create_fullButLast (xs : List Int) : FullButLast (create xs) := by
+  unfold create
+  have : ∀ (xs : List Int) (items : List Item), FullButLast items → FullButLast (xs.foldl rleAdd items) := by
+    intro xs
+    induction xs with
+    | nil => intro items h; simpa using h
+    | cons x xs ih => intro items h; exact ih _ (rleAdd_fullButLast items x h)
+  exact this xs [] (by simp [FullButLast])
+
+theorem fullButLast_bound (items : List Item) (h : FullButLast items) : 2 * items.length ≤ numValues items + 1 := by
+  induction items with
+  | nil => simp
+  | cons it rest ih =>
+    by_cases hr : rest = []
+    · subst hr; simp [numValues, Item.len]
+    · unfold FullButLast at h ih
+      rw [List.dropLast_cons_of_ne_nil hr] at h
+      have h1 := h it (List.mem_cons_self ..)
+      have h2 := ih (fun y hy => h y (List.mem_cons_of_mem _ hy))
+      simp only [numValues, List.map_cons, List.sum_cons, List.length_cons, Item.len] at h2 ⊢
+      omega
+
+/-- **Compression bound**: `create_rle` never needs more than ⌈n/2⌉ items for `n` values, whatever the values. -/
+theorem create_half_bound (xs : List Int) : 2 * (create xs).length ≤ xs.length + 1 := by
+  have := fullButLast_bound _ (create_fullButLast xs)
+  rw [(create_length_le xs).2] at this
+  exact this
+
+example : FullButLast (create [1, 2, 3, 7, 7, 7, 5, 3, 1, 1]) ∧ 2 * (create [5, 9, 1, 1, 4]).length = 5 + 1 := by
+  refine ⟨create_fullButLast _, by decide⟩   -- the bound is attained: [5,9] [1,1] [4]
+
 end TD.C16
